@@ -53,7 +53,7 @@ ComponentRenderer = Callable[[Optional[List[str]]], Tuple[str, Dict[str, List[st
 
 # Render-time cache for component rendering
 # See component_post_render()
-component_renderer_cache: Dict[str, Tuple[ComponentRenderer, str]] = {}
+component_renderer_cache: Dict[str, Tuple[ComponentRenderer, str, Dict[str, Callable[[str], str]]]] = {}
 child_component_attrs: Dict[str, List[str]] = {}
 
 nested_comp_pattern = re.compile(r'<template [^>]*?djc-render-id="\w{6}"[^>]*?></template>')
@@ -116,7 +116,11 @@ def component_post_render(
     # Instead of rendering the component's HTML content immediately, we store it,
     # so we can render the component only once we know if there are any HTML attributes
     # to be applied to the resulting HTML.
-    component_renderer_cache[render_id] = (renderer, component_name)
+    # NOTE: We keep also the callbacks of the render tree that this component belongs to. The placeholder
+    #       of a nested component may end up in the HTML of a different root than the one it registered its
+    #       callback with (e.g. slot's default content re-used through `{% fill default="..." %}` inside
+    #       of a component that is rendered as its own root).
+    component_renderer_cache[render_id] = (renderer, component_name, on_component_rendered_callbacks)
 
     if parent_id is not None:
         # Case: Nested component
@@ -190,6 +194,7 @@ def component_post_render(
     # then add the joined HTML to the cache for the parent component to continue the cycle.
     html_parts_by_component_id: Dict[str, List[str]] = {}
     content_parts: List[str] = []
+    callbacks_by_component_id: Dict[str, Dict[str, Callable[[str], str]]] = {}
 
     def get_html_parts(component_id: str) -> List[str]:
         if component_id not in html_parts_by_component_id:
@@ -213,7 +218,7 @@ def component_post_render(
 
             # Allow to optionally override/modify the rendered content from outside
             component_html = "".join(parent_parts)
-            on_component_rendered = on_component_rendered_callbacks[curr_item.parent_id]
+            on_component_rendered = callbacks_by_component_id.pop(curr_item.parent_id)[curr_item.parent_id]
             component_html = on_component_rendered(component_html)  # type: ignore[arg-type]
 
             # Add the component's HTML to parent's parent's HTML parts
@@ -233,7 +238,8 @@ def component_post_render(
             parent_html_parts.append(curr_item.content_before_component)
 
         # Generate component's content, applying the extra HTML attributes set by the parent component
-        curr_comp_renderer, curr_comp_name = component_renderer_cache.pop(curr_item.child_id)
+        curr_comp_renderer, curr_comp_name, curr_comp_callbacks = component_renderer_cache.pop(curr_item.child_id)
+        callbacks_by_component_id[curr_item.child_id] = curr_comp_callbacks
         # NOTE: This may be undefined, because this is set only for components that
         # are also root elements in their parent's HTML
         curr_comp_attrs = child_component_attrs.pop(curr_item.child_id, None)
